@@ -28,11 +28,6 @@ package eval
 //@   inline 8 2
 
 //@ func (*ti/eval.Class).Evaluation
-//@   # C12: the inherited constructor that a class without `initialize` gets is re-labelled on a copy;
-//@   # the frame / class of a type object that existed before this evaluation (a method-table entry,
-//@   # possibly a configured builtin's `new`) is never rewritten here
-//@   callsite[C12] SetFrame fresh(a_t)
-//@   callsite[C12] SetObjectClass fresh(a_t)
 //@   requires wfP(p)
 //@   eosexit
 //@   inline 8 2
@@ -46,6 +41,11 @@ package eval
 //@   # C16: a superclass written with a namespace (Ns::String) stays in that namespace even when its short
 //@   # name is also a configured builtin class
 //@   mapwrite[C16] base.ClassInheritanceMap parentNamespace != "" ==> value[len(value)-1].Frame == parentNamespace || strings.HasSuffix(value[len(value)-1].Frame, "::" + parentNamespace)
+//@   # C12: the inherited constructor that a class without `initialize` gets is re-labelled on a copy;
+//@   # the frame / class of a type object that existed before this evaluation (a method-table entry,
+//@   # possibly a configured builtin's `new`) is never rewritten here
+//@   callsite[C12] SetFrame fresh(a_t)
+//@   callsite[C12] SetObjectClass fresh(a_t)
 
 //@ # ---- C02 layer 3 (eos-exit): evaluator loops that read tokens must leave at end of stream ----
 //@ func (*ti/eval.Case).Evaluation
